@@ -131,6 +131,10 @@ func genPinset(r *fw.Rand, tag int) []*api.Pin {
 			continue
 		}
 		seen[p.Cid.KeyString()] = true
+		if r.Chance(1, 5) {
+			// an expiry that passed long ago (a fixed instant): still an entry of the pinset
+			p.ExpireAt = time.Unix(1500000000+int64(r.Intn(1000000)), 0)
+		}
 		out = append(out, p)
 	}
 	return out
